@@ -128,6 +128,21 @@ def _run_case(spec, ctx):
                 calls.append((name, getattr(R, name), tuple(np.array(x, copy=True) for x in d["arguments"]), {}))
             else:
                 calls.append((name, getattr(R, name), (np.array(d["P"], copy=True),), {"normalize": d["normalize"]}))
+        for _ in range(3):
+            while True:
+                pw = rng.integers(-2, 3, size=3).astype(float)
+                if 0 < np.linalg.norm(pw) < np.pi:
+                    break
+            hw = np.concatenate([rng.integers(-3, 4, size=3).astype(float), pw])
+            calls += [("Exp_SO3_psi", R.Exp_SO3_psi, (pw,), {}), ("T_SO3_psi", R.T_SO3_psi, (pw,), {}), ("T_SO3_inv_psi", R.T_SO3_inv_psi, (pw,), {}),
+                      ("Exp_SE3_h", R.Exp_SE3_h, (hw,), {}), ("T_SO3_dot", R.T_SO3_dot, (pw, rng.integers(-2, 3, size=3).astype(float)), {})]
+            # exact quarter / third turns as whole-number matrices
+            perm = rng.permutation(3); Aw = np.zeros((3, 3))
+            for i_ in range(3):
+                Aw[i_, perm[i_]] = 1.0 if rng.random() < 0.5 else -1.0
+            if round(np.linalg.det(Aw)) == 1 and np.trace(Aw) > -0.9:
+                Hw = np.eye(4); Hw[:3, :3] = Aw; Hw[:3, 3] = hw[:3]
+                calls += [("Log_SO3_A", R.Log_SO3_A, (Aw,), {}), ("Log_SE3_H", R.Log_SE3_H, (Hw,), {})]
         representation_check(ctx, calls, mon="representation")
         ctx.cls("kind:purity")
         ctx.sig([kind, first], nontrivial=True)
